@@ -49,8 +49,9 @@ def render_fraction(rng, v: F) -> str:
 
 class Gen:
     def __init__(self, rng: random.Random, n_dims=None, n_units=None, n_prefixes=None,
-                 offsets=1, logs=0, collide=False):
+                 offsets=1, logs=0, collide=False, neg_rate=0.05):
         self.rng = rng
+        self.neg_rate = neg_rate
         self.lines_prefix: list[str] = []
         self.lines_base: list[str] = []
         self.lines_dim: list[str] = []
@@ -179,7 +180,7 @@ class Gen:
                                  F(self.rng.randint(1, 9999), 10 ** self.rng.randint(0, 6)),
                                  F(10) ** self.rng.randint(-9, 9), F(self.rng.randint(2, 60))])
         factor, root, dims, txt = scale, {}, {}, render_fraction(self.rng, scale)
-        neg = self.rng.random() < 0.05
+        neg = self.rng.random() < self.neg_rate
         if neg:
             factor, txt = -factor, "-" + txt
         for p in parts:
